@@ -115,7 +115,7 @@ func runC27(c c27Case, rec *evid.Rec) (core.Result, error) {
 	if err != nil {
 		return res, fmt.Errorf("open: %v", err)
 	}
-	defer db.Close()
+	defer func() { db.Close() }()
 	m := model.New(clockBase)
 
 	newBatch := func() *badger.WriteBatch {
@@ -301,6 +301,27 @@ func runC27(c c27Case, rec *evid.Rec) (core.Result, error) {
 	if err := check("after memtable flush + L0 compaction"); err != nil {
 		return res, err
 	}
+	// Known finding l0-order-lost-on-reopen: Open orders level 0 by file id. The output of an L0->L0
+	// compaction gets a higher id than younger tables that were left out of it, so after a re-open
+	// the merged (older) data takes precedence for an equal (key, version). Exactly the re-open
+	// comparison after an L0->L0 final compaction is excluded (counted).
+	skipReopen := false
+	if c.FinalCompact == 1 && len(c.Cuts) > 0 && !c27Strict {
+		skipReopen = true
+		res.Excluded++
+	}
+	if !c.Spec.InMemory && !skipReopen {
+		if err := db.Close(); err != nil {
+			return res, fmt.Errorf("close: %v", err)
+		}
+		db, err = c.Spec.Open(dir, nil)
+		if err != nil {
+			return res, fmt.Errorf("re-open: %v", err)
+		}
+		if err := check("after close and re-open"); err != nil {
+			return res, err
+		}
+	}
 	est := 0
 	for _, op := range c.Ops {
 		est += op.VSize + 20
@@ -320,6 +341,18 @@ func runC27(c c27Case, rec *evid.Rec) (core.Result, error) {
 		res.Classes = append(res.Classes, "batches_across_tables")
 	}
 	return res, nil
+}
+
+var c27Strict bool
+
+// TestKF_C27Strict replays a saved batch program with the known-finding exclusion switched off.
+func TestKF_C27Strict(t *testing.T) {
+	if !core.Replaying() {
+		t.Skip("witness runner: replay only")
+	}
+	c27Strict = true
+	defer func() { c27Strict = false }()
+	core.Run(t, "KF", "witness", "witness replay", genC27, runC27)
 }
 
 func TestC27_WriteBatch(t *testing.T) {
